@@ -1,9 +1,9 @@
 package main
 
 import (
+	"fmt"
 	"go/token"
 	"go/types"
-	"fmt"
 	"sort"
 
 	"golang.org/x/tools/go/ssa"
@@ -142,7 +142,7 @@ func c19MetafileFinalRecord(p *Prog) *RuleResult {
 		}
 	})
 	for k, reason := range usedExc {
-		r.Note("reviewed rewrite "+k+": "+reason)
+		r.Note("reviewed rewrite " + k + ": " + reason)
 	}
 	r.Anchor("metafile writes that report import-record fields", nWrites >= 1)
 	return r
